@@ -32,6 +32,10 @@ func init() {
 	generators["lateanswer"] = genLateAnswer
 	generators["lateregister"] = genLateRegister
 	generators["longprobe"] = genLongProbe
+	generators["ownprefix"] = genOwnPrefix
+	generators["blindrelease"] = genBlindRelease
+	generators["refusedthen"] = genRefusedThen
+	generators["fastbeat"] = genFastBeat
 	generators["twoinflight"] = genTwoInFlight
 	generators["outage"] = genOutage
 	generators["slowdemote"] = genSlowDemote
@@ -518,12 +522,26 @@ func HostilePayload(r rng, p int, own, other string, ownTok string) string {
 		return fmt.Sprintf(`{"id":%q,"token":"t","priority":-5}`, other)
 	case 21:
 		return fmt.Sprintf(`{"id":%q,"token":"t","priority":%s}`, other, r.pickS("1e30", "1e19", "9223372036854775807", "9223372036854775808", "18446744073709551616", "2.5", "1e1"))
+	case 23:
+		// a well-formed own record followed by something: the document as a whole is malformed
+		// (encoding/json.Unmarshal rejects it; a streaming decoder that stops after the first value does not)
+		return fmt.Sprintf(`{"id":%q,"token":%q}`, own, ownTok) + r.pickS("garbage", "]", "}", `{"id":"x"`, ",", "\x00", `"`)
+	case 24:
+		return fmt.Sprintf(`{"id":%q,"token":%q}{"id":%q,"token":"t2"}`, own, ownTok, other)
+	case 25:
+		return fmt.Sprintf(`{"id":%q,"token":"t2"}{"id":%q,"token":%q}`, other, own, ownTok)
+	case 26:
+		return fmt.Sprintf(`[{"id":%q,"token":%q}]`, own, ownTok)
+	case 27:
+		return fmt.Sprintf(`{"id":%q,"token":%q,"priority":1} trailing`, other, "tok-"+fmt.Sprint(r.IntN(1e6)))
+	case 28:
+		return fmt.Sprintf(`{"record":{"id":%q,"token":%q}}`, own, ownTok)
 	default:
 		return `{}`
 	}
 }
 
-const HostileProductions = 23
+const HostileProductions = 30
 
 func genHostile(r rng, k int) *Spec {
 	n := 1 + r.IntN(3)
@@ -1975,6 +1993,64 @@ func genLongProbe(r rng, k int) *Spec {
 }
 
 // ---------------------------------------------------------------------------
+// ownprefix: somebody replaces the leader's record by bytes that BEGIN like (or contain, or
+// wrap) the leader's own well-formed record - own id, current token - but are malformed or
+// foreign as a whole; the leader validates at once (before its watch or heartbeat notices),
+// or the replacement lands while the validation's read is on its way to the store.
+// ---------------------------------------------------------------------------
+
+var ownPrefixProds = []int{23, 23, 23, 24, 25, 26, 27, 28, 9, 10, 5, 6}
+
+// OwnPrefixTotal is the size of the enumeration.
+func OwnPrefixTotal() int { return len(ownPrefixProds) * 2 * 2 }
+
+func genOwnPrefix(r rng, k int) *Spec {
+	idx := k % OwnPrefixTotal()
+	prod := ownPrefixProds[idx%len(ownPrefixProds)]
+	idx /= len(ownPrefixProds)
+	orDemote := idx%2 == 0
+	idx /= 2
+	mid := idx%2 == 1
+	two := (k/OwnPrefixTotal())%2 == 1
+	h := r.pickD(200*ms, 500*ms)
+	s := &Spec{TTL: 3 * h, NoPreempt: true, Tags: []string{"ownprefix", fmt.Sprint("p", prod)}}
+	s.Lat = Latency{Min: ms, Max: r.pickD(2*ms, 10*ms)}
+	s.Watch = WatchPolicy{DelayMax: 150 * ms}
+	n := 1
+	if two {
+		n = 2
+	}
+	s.Insts = mkInsts(n, 1, h)
+	s.Actions = append(s.Actions, Action{At: 10 * ms, Kind: "start", Inst: "i0"})
+	if two {
+		s.Actions = append(s.Actions, Action{At: 300 * ms, Kind: "start", Inst: "i1"})
+	}
+	// just after a refresh (the ticks fall at 10 ms + j*h + a few ms of latency), so that the
+	// heartbeat does not notice before the validation has read
+	t := 10*ms + 8*h + 40*ms
+	val := HostilePayload(r, prod, "i0", "stranger", "@OWNTOKEN@")
+	if mid {
+		s.Breaks = []BreakSpec{{Name: "op", Client: "i0", Op: "Get", Nth: 1, Phase: "req"}}
+		s.Actions = append(s.Actions,
+			Action{At: t, Kind: "arm", Break: "op"},
+			Action{Chain: true, Kind: "validate", Inst: "i0", Val: "bg", OrDemote: orDemote},
+			Action{After: ms, Kind: "waitbreak", Break: "op", D: 5 * sec},
+			Action{After: ms, Kind: "output", Inst: "g0", Val: val},
+			Action{After: ms, Kind: "release", Break: "op"},
+		)
+	} else {
+		s.Actions = append(s.Actions,
+			Action{At: t, Kind: "output", Inst: "g0", Val: val},
+			Action{Chain: true, Kind: "validate", Inst: "i0", Val: "bg", OrDemote: orDemote},
+		)
+	}
+	s.Actions = append(s.Actions, Action{After: ms, Kind: "waitapi", Inst: "i0", D: 5 * sec})
+	s.Duration = t + 6*h
+	s.Sample = sampleFor(h)
+	return s
+}
+
+// ---------------------------------------------------------------------------
 // twoinflight: a follower is stopped while TWO of its store calls are in flight - the
 // periodic check's read (served while the key was absent) and an acquisition round's
 // Create (applied successfully). The answers arrive after the stop call has taken
@@ -2242,7 +2318,7 @@ func genHealthConn(r rng, k int) *Spec {
 // ---------------------------------------------------------------------------
 
 // DupAcquireTotal is the size of the enumeration.
-func DupAcquireTotal() int { return 3 * 3 * 2 }
+func DupAcquireTotal() int { return 3 * 3 * 2 * 2 }
 
 func genDupAcquire(r rng, k int) *Spec {
 	idx := k % DupAcquireTotal()
@@ -2251,6 +2327,11 @@ func genDupAcquire(r rng, k int) *Spec {
 	after := []time.Duration{ms, 50 * ms, 400 * ms}[idx%3] // how long after the second term began the first answer arrives
 	idx /= 3
 	block := idx%2 == 0
+	idx /= 2
+	// the second term has come AND GONE (it ran for longer than a TTL, then a validation with an
+	// already cancelled context ended it) when the first answer arrives: the instance is a
+	// follower again, and the record in the store is the second term's
+	endSecond := idx%2 == 1
 	h := r.pickD(500*ms, 1*sec)
 	s := &Spec{TTL: 5 * h, NoPreempt: true, Tags: []string{"dupacquire", gone}}
 	s.Lat = Latency{Min: ms, Max: r.pickD(2*ms, 5*ms)}
@@ -2274,7 +2355,14 @@ func genDupAcquire(r rng, k int) *Spec {
 	}
 	// the watcher sees the deletion, a new round creates the record again (jitter <= 100 ms, or the
 	// periodic check 500 ms later); then the first answer is let through
-	s.Actions = append(s.Actions, Action{After: 700*ms + after, Kind: "release", Break: "c1"})
+	if endSecond {
+		s.Tags = append(s.Tags, "second-term-over")
+		s.Actions = append(s.Actions,
+			Action{After: 700*ms + s.TTL + h, Kind: "validate", Inst: "i1", Val: "cancelled", OrDemote: true},
+			Action{After: after, Kind: "release", Break: "c1"})
+	} else {
+		s.Actions = append(s.Actions, Action{After: 700*ms + after, Kind: "release", Break: "c1"})
+	}
 	s.Duration = 6 * h
 	s.Sample = sampleFor(h)
 	return s
@@ -2398,6 +2486,188 @@ func genChainTakeover(r rng, k int) *Spec {
 		Action{After: r.pickD(20*ms, 100*ms), Kind: "release", Break: "ct2"},
 	)
 	s.Duration = 8 * h
+	s.Sample = sampleFor(h)
+	return s
+}
+
+// ---------------------------------------------------------------------------
+// fastbeat: fault-free runs at the fast end of the valid timing configurations - heartbeat
+// intervals of 10-75 ms with TTL ratios from the minimum (3) upwards, i.e. leases of 30 ms
+// to 750 ms. Nothing in the library may be paced by a constant that ignores the configured
+// interval (a floor on the tick period, a fixed margin, a fixed jitter) in a way that lets
+// the lease lapse.
+// ---------------------------------------------------------------------------
+
+func genFastBeat(r rng, k int) *Spec {
+	h := []time.Duration{10 * ms, 20 * ms, 33 * ms, 50 * ms, 75 * ms}[k%5]
+	ratio := []int{3, 3, 4, 5, 10}[(k/5)%5]
+	n := 1 + r.IntN(3)
+	s := &Spec{Benign: true, NoPreempt: true, TTL: time.Duration(ratio) * h, Tags: []string{"fastbeat"}}
+	s.Insts = mkInsts(n, 1, h)
+	if k%3 == 2 {
+		// instance ids are free text: ids that need escaping in JSON, ids that differ only in
+		// letter case or in surrounding blanks, an id that looks like a record
+		names := [][]string{{`node "a"`, `node 'a'`, `node a`}, {"Lead-1", "lead-1", "LEAD-1"}, {`a\b`, `a/b`, `a\\b`}, {"zürich-1", "zurich-1", "zu\u0308rich-1"}, {" x", "x", "x "}, {`{"id":"i9","token":"t"}`, "i9", `"i9"`}}[(k/3)%6]
+		for i := range s.Insts {
+			s.Insts[i].Name = names[i]
+		}
+		s.Tags = append(s.Tags, "odd-ids")
+	}
+	for i := range s.Insts {
+		s.Insts[i].ValInterval = r.pickD(0, 0, h, 2*h)
+		s.Insts[i].BlockPromote = r.chance(0.5)
+	}
+	switch r.IntN(3) {
+	case 0:
+		s.Lat = Latency{}
+	case 1:
+		s.Lat = Latency{Min: 0, Max: h / 8}
+	default:
+		s.Lat = Latency{Min: h / 8, Max: h / 5}
+	}
+	s.Watch = WatchPolicy{DelayMax: r.pickD(0, h/2, 50*ms), DropP: r.pickF(0, 0, 0.3)}
+	T := 3 * sec
+	for i := 0; i < n; i++ {
+		s.Actions = append(s.Actions, Action{At: r.dur(0, 500*ms), Kind: "start", Inst: s.Insts[i].Name})
+	}
+	m := r.IntN(4)
+	for j := 0; j < m; j++ {
+		a := Action{At: r.dur(500*ms, T), Inst: s.Insts[r.IntN(n)].Name}
+		switch r.IntN(4) {
+		case 0:
+			a.Kind, a.Stop = "stop", randStop(r)
+		case 1:
+			a.Kind, a.Stop = "restart", randStop(r)
+		case 2:
+			a.Kind = "start"
+		default:
+			a.Kind, a.Stop = "stop", &StopVariant{DeleteKey: true, Wait: r.chance(0.5)}
+		}
+		s.Actions = append(s.Actions, a)
+	}
+	if r.chance(0.5) {
+		s.YieldP, s.YieldMax = 0.3, h/8
+	}
+	s.Duration = 2 * sec
+	s.Sample = sampleFor(h)
+	return s
+}
+
+// ---------------------------------------------------------------------------
+// refusedthen: a takeover-enabled instance c is refused once by a leader b of equal or higher
+// priority. b goes away without a delete (its record expires), while c is cut off from the
+// store (every call fails, its watch is closed and cannot be re-established); a
+// lower-priority instance a takes the vacant key. c's connection comes back: first its reads
+// (the periodic check sees a's record), a little later its watch. From then on everything is
+// fault-free, c is the highest-priority instance and has to preempt a promptly: what it
+// concluded about b says nothing about a.
+// ---------------------------------------------------------------------------
+
+// RefusedThenTotal is the size of the enumeration.
+func RefusedThenTotal() int { return 2 * 2 * 2 * 2 }
+
+func genRefusedThen(r rng, k int) *Spec {
+	idx := k % RefusedThenTotal()
+	cPrio := []int{3, 2}[idx%2]
+	idx /= 2
+	plain := idx%2 == 1
+	idx /= 2
+	h := []time.Duration{200 * ms, 500 * ms}[idx%2]
+	idx /= 2
+	// how c's watch falls behind its periodic check: the watch is lost and comes back later
+	// than the reads ("rewatch"), or it stays up and the notification of a's record is slow ("hold")
+	hold := idx%2 == 0
+	s := &Spec{TTL: 3 * h, Prompt: true, Tags: []string{"priority", "refusedthen"}}
+	s.Lat = Latency{Min: 0, Max: h / 20}
+	s.Watch = WatchPolicy{DelayMax: r.pickD(0, h/10)}
+	s.Insts = mkInsts(3, 1, h)
+	s.Insts[0].Priority = 1
+	s.Insts[1].Priority = 3
+	s.Insts[2].Priority, s.Insts[2].Takeover = cPrio, true
+	t1 := 10*ms + 6*h + r.dur(0, h)
+	t2 := t1 + s.TTL + 1*sec + 2*h
+	t3 := t2 + 700*ms + r.dur(0, 400*ms)
+	s.Rules = append(s.Rules, FaultRule{Client: "i2", From: t1, To: t2, Kind: "err", Err: r.pickS("connclosed", "timeout", "noresponders")})
+	sv := &StopVariant{Timeout: 5 * sec}
+	if plain {
+		sv = &StopVariant{Plain: true}
+	}
+	s.Actions = append(s.Actions,
+		Action{At: 10 * ms, Kind: "start", Inst: "i1"},
+		Action{At: 10*ms + 2*h, Kind: "start", Inst: "i2"},
+	)
+	if hold {
+		s.Tags = append(s.Tags, "hold")
+		s.Breaks = []BreakSpec{{Name: "dv", Client: "i2", Op: "Deliver", Nth: 1, Phase: "site"}}
+		s.Actions = append(s.Actions,
+			Action{At: t1, Kind: "stop", Inst: "i1", Stop: sv},
+			Action{At: t1 + h/4, Kind: "arm", Break: "dv"},
+			Action{At: t1 + h, Kind: "start", Inst: "i0"},
+			Action{At: t3, Kind: "release", Break: "dv"},
+		)
+	} else {
+		s.Tags = append(s.Tags, "rewatch")
+		s.Rules = append(s.Rules, FaultRule{Client: "i2", Op: "Watch", From: t1, To: t3, Kind: "err", Err: "timeout"})
+		s.Actions = append(s.Actions,
+			Action{At: t1, Kind: "closewatch", Inst: "i2"},
+			Action{Chain: true, Kind: "stop", Inst: "i1", Stop: sv},
+			Action{At: t1 + h, Kind: "start", Inst: "i0"},
+			Action{At: t3, Kind: "sample"},
+		)
+	}
+	s.PromptAfter = t3 + 1*sec + h
+	s.Duration = 1*sec + 10*h
+	s.Sample = sampleFor(h)
+	return s
+}
+
+// ---------------------------------------------------------------------------
+// blindrelease: a leader has just been preempted by a higher-priority instance and has not
+// noticed yet (its watch event is on its way, its next refresh not yet due) when it is
+// stopped with DeleteKey - and the reads of that shutdown fail (error or no answer) while
+// its Delete would get through. It cannot know whose record is there: no delete.
+// ---------------------------------------------------------------------------
+
+// BlindReleaseTotal is the size of the enumeration.
+func BlindReleaseTotal() int { return 4 * 2 * 2 }
+
+func genBlindRelease(r rng, k int) *Spec {
+	idx := k % BlindReleaseTotal()
+	fault := []FaultRule{{Kind: "err", Err: "timeout"}, {Kind: "err", Err: "noresponders"}, {Kind: "err", Err: "connclosed"}, {Kind: "hang"}}[idx%4]
+	idx /= 4
+	during := idx%2 == 0 // stop while the preemptor's write has been applied but not answered yet
+	idx /= 2
+	wait := idx%2 == 0
+	h := r.pickD(500*ms, 1*sec)
+	s := &Spec{TTL: 5 * h, Tags: []string{"priority", "blindrelease", fault.Kind + fault.Err}}
+	s.Lat = Latency{Min: ms, Max: r.pickD(2*ms, 5*ms)}
+	s.Watch = WatchPolicy{DelayMax: 200 * ms}
+	s.Insts = mkInsts(2, 1, h)
+	s.Insts[0].Priority = 1
+	s.Insts[1].Priority, s.Insts[1].Takeover = 3, true
+	t := 10*ms + 4*h + 40*ms
+	fault.Client, fault.Op, fault.From = "i0", "Get", t
+	s.Rules = append(s.Rules, fault)
+	s.Breaks = []BreakSpec{{Name: "tk", Client: "i1", Op: "Update", Nth: 1, Phase: "resp", Armed: true}}
+	stop := &StopVariant{DeleteKey: true, Wait: wait, Timeout: 3 * sec}
+	s.Actions = append(s.Actions,
+		Action{At: 10 * ms, Kind: "start", Inst: "i0"},
+		Action{At: t, Kind: "start", Inst: "i1"},
+		Action{After: ms, Kind: "waitbreak", Break: "tk", D: 3 * sec},
+	)
+	if during {
+		s.Actions = append(s.Actions,
+			Action{Chain: true, Kind: "stop", Inst: "i0", Stop: stop},
+			Action{After: r.pickD(5*ms, 50*ms), Kind: "release", Break: "tk"},
+		)
+	} else {
+		s.Actions = append(s.Actions,
+			Action{Chain: true, Kind: "release", Break: "tk"},
+			Action{After: r.pickD(ms, 5*ms), Kind: "stop", Inst: "i0", Stop: stop},
+		)
+	}
+	s.Actions = append(s.Actions, Action{After: ms, Kind: "waitapi", Inst: "i0", D: 10 * sec})
+	s.Duration = t + 6*h
 	s.Sample = sampleFor(h)
 	return s
 }
